@@ -112,6 +112,130 @@ def range_guarded(a):
     return False
 
 
+OPT_UNWRAP_RX = r"Option::<T>::(unwrap|expect)$"
+CMP_RX = r"cmp::PartialOrd::(lt|le|gt|ge)$"
+PEEK_RX = r"BTreeMap::<K, V, A>::(first_key_value|last_key_value)$|VecDeque::<T, A>::(front|back)$|slice::<impl \[T\]>::(first|last)$"
+POP_RX = r"BTreeMap::<K, V, A>::(pop_first|pop_last)$|VecDeque::<T, A>::(pop_front|pop_back)$|Vec::<T, A>::pop$"
+
+
+def _is_some_agg(e):
+    return isinstance(e, tuple) and len(e) > 2 and e[0] == "agg" and e[1].endswith("option::Option") and e[2] == "Some"
+
+
+def r16_3(ctx, rep, ents, floor=4, site_filter=None):
+    """R16.3: Option::unwrap / expect in a public cone only on a value the path has established to be Some."""
+    rep.rule("R16.3", "every Option::unwrap/expect in the cone of a public operation is reached only on paths that established the value to be "
+                      "Some: a variant test, `Some(x) < / <= opt` taken (or `Some(x) >= / > opt` refused), or a peek (first_key_value..) that "
+                      "returned Some before the pop - with no write to the value in between. Whether the panic is reachable otherwise depends "
+                      "on argument values through the guard, so an unguarded unwrap is reported")
+    seen_sites = {}
+    for key, all_args in ents:
+        g = ctx.graph(key)
+        P = ctx.product(key)
+        op = short_key(key).split("::")[-1] if "closure" not in key else "read-closure"
+        sites = [n for n in P.calls(OPT_UNWRAP_RX) if not g.term(n).get("exp")]
+        if not sites:
+            continue
+        cand = {n: strip_ids(event_args(g, n)[0]) for n in sites}
+        if site_filter:
+            sites = [n for n in sites if site_filter(cand[n])]
+            cand = {n: cand[n] for n in sites}
+            if not sites:
+                continue
+        cmps = {n for n in P.calls(CMP_RX)}
+        peeks = {n for n in P.calls(PEEK_RX)}
+        pops = {n for n in P.calls(POP_RX)}
+        tests = {n for n in P.calls(r"Option::<T>::(is_some|is_none)$")}
+        verdict = {}
+        want_some = set(cand.values())
+        want_nonempty = set()
+        for n in pops:
+            if strip_ids(g.prov_call(g.inst(n), n[1])) in want_some:
+                a = [strip_ids(x) for x in event_args(g, n)]
+                if a:
+                    want_nonempty.add(a[0])
+
+        def fname(e):
+            return e[2] if isinstance(e, tuple) and e and e[0] == "field" else None
+
+        def step(ms, pi, qi, learn):
+            known = set(ms)
+            n = P.gnode(pi)
+            # writes kill facts about the written field
+            for st in g.stmts(n):
+                if st["k"] == "assign" and st["p"]["proj"]:
+                    fl = [el for el in st["p"]["proj"] if isinstance(el, dict) and "f" in el]
+                    if fl:
+                        nm = fl[-1].get("n")
+                        known = {k for k in known if not (k[0] == "some" and fname(k[1]) == nm)}
+            t = g.term(n)
+            if n in cand:
+                e = cand[n]
+                ok = ("some", e) in known
+                if not ok:
+                    tg = P.operand_tag(pi, t["args"][0]) if t.get("args") else None
+                    ok = bool(tg) and tg[0] == "Some"
+                verdict[n] = verdict.get(n, True) and ok
+            if n in pops:
+                a = [strip_ids(x) for x in event_args(g, n)]
+                res = strip_ids(g.prov_call(g.inst(n), n[1]))
+                known.discard(("some", res))
+                if a and ("nonempty", a[0]) in known:
+                    known.add(("some", res))
+                known = {k for k in known if not (k[0] == "nonempty" and a and k[1] == a[0])}
+            elif t["k"] == "call" and n not in g.callee_inst and n not in peeks and mut_first_arg(g, n):
+                a = [strip_ids(x) for x in event_args(g, n)]
+                if a:
+                    known = {k for k in known if not (k[0] == "nonempty" and k[1] == a[0])}
+            for o, v in norm_learn(learn):
+                cn = origin_call(o)
+                if cn in cmps:
+                    a = [strip_ids(x) for x in event_args(g, cn)]
+                    nm = cpath(g.term(cn)).split("::")[-1]
+                    if len(a) == 2:
+                        # Some(x) <|<= b  taken  => b is Some ; Some(x) >=|> b refused => b is Some   (None < Some(_))
+                        if _is_some_agg(a[0]) and ((nm in ("lt", "le") and v == "true") or (nm in ("ge", "gt") and v == "false")):
+                            known.add(("some", a[1]))
+                        if _is_some_agg(a[1]) and ((nm in ("gt", "ge") and v == "true") or (nm in ("le", "lt") and v == "false")):
+                            known.add(("some", a[0]))
+                elif cn in peeks and v == "Some":
+                    a = [strip_ids(x) for x in event_args(g, cn)]
+                    if a:
+                        known.add(("nonempty", a[0]))
+                elif cn in tests:
+                    a = [strip_ids(x) for x in event_args(g, cn)]
+                    nm = cpath(g.term(cn)).split("::")[-1]
+                    if a and ((nm == "is_some" and v == "true") or (nm == "is_none" and v == "false")):
+                        known.add(("some", a[0]))
+                elif cn is None and v == "Some" and isinstance(o, tuple) and o and o[0] == "place":
+                    e = origin_place_expr(g, o)
+                    if e is not None:
+                        known.add(("some", strip_ids(e)))
+            known = {k for k in known if (k[0] == "some" and k[1] in want_some) or (k[0] == "nonempty" and k[1] in want_nonempty)}
+            return frozenset(known)
+        run_monitor(P, frozenset(), step)
+        for n in sites:
+            sid = (g.inst(n).key, n[1])
+            if sid in seen_sites:
+                continue
+            if n not in verdict:
+                continue
+            seen_sites[sid] = True
+            sig = "unwrap(%s)" % expr_s(cand[n])[:70]
+            if verdict[n]:
+                rep.ok("R16.3", "%s: %s" % (op, sig), "established Some on every path reaching it", where=g.where(n))
+            else:
+                rep.violation("R16.3", "%s|%s" % (op, sig), "%s: %s" % (op, sig),
+                              "an Option is unwrapped on a path that has not established it to be Some: the guard in front of it does not imply "
+                              "it (e.g. the compared value is not the unwrapped one), so some argument / stored state reaches a panic",
+                              where=g.where(n))
+    # a cone without any Option::unwrap is fine (nothing to guard); the recogniser itself is anchored on the crate as a whole
+    n_any = sum(1 for b in ctx.facts.doc["bodies"] for blk in b.get("blocks", [])
+                if blk["term"]["k"] == "call" and re.search(OPT_UNWRAP_RX, (blk["term"]["callee"].get("path") or "")))
+    rep.floor("R16.3", "Option::unwrap/expect call sites recognised in the crate (recogniser anchor)", n_any, 1)
+    rep.notes.append("R16.3: %d Option unwrap site(s) in the analysed cones" % len(seen_sites))
+
+
 def run(ctx, rep):
     rep.rule("R16.1", "every panic-capable site (overflow/bounds/division assert, may-panic std call) in the cone of a public "
                       "operation whose operand is data-dependent on an argument, on a Types::log_index/next_log_index/payload_size "
@@ -195,6 +319,7 @@ def run(ctx, rep):
                               "a std call that panics on bad arguments (%s) receives a caller-supplied value without a guard" % cpath(t),
                               where=g.where(n))
     rep.floor("R16.1", "panic-capable sites examined", n_sinks, 40)
+    r16_3(ctx, rep, ents)
     rep.ok("R16.2", "inventory", "%d distinct argument-independent panic-capable sites in public cones (not armed)" % n_inventory,
            nontrivial=False)
     rep.notes.append("tainted sinks: %d" % n_tainted)
